@@ -196,7 +196,7 @@ Definition tx_recorded (s : pstate) (tid : N) : bool :=
 
 (* filterTx(tx, nil) up to and including onRelevantTx (one database transaction):
    POk None = not relevant, POk (Some s') = stored *)
-Definition receive_store (p : params) (own : owner_fn) (n : node) (s : pstate) (t : tx) : pres (option pstate) :=
+Definition receive_store_gen (d3fix : bool) (p : params) (own : owner_fn) (n : node) (s : pstate) (t : tx) : pres (option pstate) :=
   match (if t_cb t then Ok [] else filter_ins_unmined own (lookup_pending n (ps_unmined s)) (t_ins t) 0%N) with
   | Err e => PErr (PE e)
   | Ok ins =>
@@ -208,7 +208,7 @@ Definition receive_store (p : params) (own : owner_fn) (n : node) (s : pstate) (
           else
             (* insertMemPoolTx: a transaction that is already recorded as mined is not stored (repair
                0bc4560): AddRelevantTx returns at once, filterTx still reports it relevant *)
-            if (match um_get (ps_unmined s) (t_id t) with Some _ => false | None => tx_recorded s (t_id t) end)
+            if (match um_get (ps_unmined s) (t_id t) with Some _ => false | None => d3fix && tx_recorded s (t_id t) end)
             then POk (Some s)
             else
             let s1 := match um_get (ps_unmined s) (t_id t) with
@@ -228,6 +228,10 @@ Definition receive_store (p : params) (own : owner_fn) (n : node) (s : pstate) (
             end
       end
   end.
+
+(* the code in force; [receive_store_gen false] is the code as first found, which stored a transaction
+   already recorded as mined as pending again (finding pending-while-mined, repaired in 0bc4560) *)
+Definition receive_store := receive_store_gen true.
 
 Inductive rres := RRelevant | RNot | RError.
 
@@ -838,6 +842,11 @@ Fixpoint settled_pending (upper : list tx) (cands : list tx) (acc : list tx) : l
                 forallb (fun o => negb (existsb (fun q => creates q o) upper) || existsb (fun q => creates q o) acc) (t_ins t) in
       settled_pending upper rest (if ok then acc ++ [t] else acc)
   end.
+
+(* AddCredits as first found stored the coinbase maturity for every coinbase output, whatever its script
+   (finding coinbase-deposit-maturity, repaired in 91b07dd; Model.maturity_of is the repaired rule) *)
+Definition maturity_as_found (p : params) (cb : bool) (c : oclass) : Z :=
+  if cb then p_cbmat p else script_maturity p c.
 
 (* what consensus makes of a deposit: the coinbase maturity and the sequence lock both apply *)
 Definition consensus_lock (p : params) (bp : bparams) (k : coin) : Z :=
